@@ -48,10 +48,10 @@ ARGS = "gsize, elevation, closed_, open_buf, open_n, pit_buf, pit_head, pit_tail
 
 FRESH = r"""
 __CPROVER_requires(0 < gsize && gsize <= %(NMAX)s && gsize == GSIZE && QCAP <= FSL_QCAP && QCAP >= 2)
-__CPROVER_requires(__CPROVER_is_fresh(elevation, gsize * 8) && __CPROVER_is_fresh(closed_, gsize))
-__CPROVER_requires(__CPROVER_is_fresh(open_buf, QCAP * 16) && __CPROVER_is_fresh(open_n, 8))
-__CPROVER_requires(__CPROVER_is_fresh(pit_buf, QCAP * 16) && __CPROVER_is_fresh(pit_head, 8) && __CPROVER_is_fresh(pit_tail, 8))
-__CPROVER_requires(__CPROVER_is_fresh(m_mask, gsize) && __CPROVER_is_fresh(base_level, gsize) && __CPROVER_is_fresh(nodes_status, gsize))
+__CPROVER_requires(__CPROVER_is_fresh(elevation, gsize * sizeof(double)) && __CPROVER_is_fresh(closed_, gsize * sizeof(_Bool)))
+__CPROVER_requires(__CPROVER_is_fresh(open_buf, QCAP * sizeof(struct pnode)) && __CPROVER_is_fresh(open_n, sizeof(size_t)))
+__CPROVER_requires(__CPROVER_is_fresh(pit_buf, QCAP * sizeof(struct pnode)) && __CPROVER_is_fresh(pit_head, sizeof(size_t)) && __CPROVER_is_fresh(pit_tail, sizeof(size_t)))
+__CPROVER_requires(__CPROVER_is_fresh(m_mask, gsize * sizeof(_Bool)) && __CPROVER_is_fresh(base_level, gsize * sizeof(_Bool)) && __CPROVER_is_fresh(nodes_status, gsize * sizeof(uint8_t)))
 __CPROVER_requires(*open_n <= QCAP && *pit_head <= *pit_tail && *pit_tail <= QCAP)
 """ % dict(NMAX=NMAX_NODES)
 
@@ -279,7 +279,7 @@ def make_init(nb):
                  "open_buf[*open_n].m_idx = idx; open_buf[*open_n].m_elevation = FSL_FLAT(elevation, idx); *open_n = *open_n + 1;"),
                ] + GRAPH_VOCAB,
         contract=FRESH + ghost_requires(nb) + r"""
-__CPROVER_requires(base_n <= gsize && __CPROVER_is_fresh(base_list, gsize * 8))
+__CPROVER_requires(base_n <= gsize && __CPROVER_is_fresh(base_list, gsize * sizeof(size_t)))
 /* entry state established by fill_sinks_sloped: empty queues, nothing closed (instances at the ghost cells), ghost tracking reset */
 __CPROVER_requires(*open_n == 0 && *pit_head == 0 && *pit_tail == 0 && !closed_[G] && %(NBOPEN)s)
 __CPROVER_requires(!G_PROCESSED && !G_IN_OPEN && !G_IN_PIT)
@@ -336,7 +336,7 @@ double ELEV_IN_G; /* ghost: input elevation of G */
                V(r"!open\.empty\(\)", "!OPEN_EMPTY()"), V(r"!pit\.empty\(\)", "!PIT_EMPTY()"),
                RB(r"while \(!OPEN_EMPTY\(\) \|\| !PIT_EMPTY\(\)\)", "{ pflood_step(%s); }" % ARGS)] + GRAPH_VOCAB,
         contract=FRESH.replace("__CPROVER_requires(*open_n <= QCAP && *pit_head <= *pit_tail && *pit_tail <= QCAP)\n", "") + ghost_requires(nb) + r"""
-__CPROVER_requires(base_n <= gsize && __CPROVER_is_fresh(base_list, gsize * 8))
+__CPROVER_requires(base_n <= gsize && __CPROVER_is_fresh(base_list, gsize * sizeof(size_t)))
 __CPROVER_requires(ELEV_IN_G == elevation[G] && !isnan(elevation[G]))
 /* scratch state of the containers is arbitrary on entry (C09: the result cannot depend on it) */
 __CPROVER_assigns(__CPROVER_object_whole(elevation), __CPROVER_object_whole(closed_), __CPROVER_object_whole(open_buf), *open_n,
